@@ -196,7 +196,9 @@ def generate(rng, tier):
             "via": rng.choice(["file", "file", "cli", "configpath"]) if optout != "ignored" else "file", "optout": optout,
             "emit": rng.choice([[], [], ["--check"], ["--check"], ["--emit", "stdout"], ["--emit", "json"]]) + rng.choice([[], [], [], ["-v"], ["-q"]])
                     + rng.choice([[], [], [], ["--color", "always"], ["--color", "auto"], ["--color", "never"], ["--config", "color=Always"]]),
-            "term": rng.choice(["dumb", "dumb", "vt100", "xterm", "xterm-256color", None, "no-such-terminal", "ansi"])}
+            "term": rng.choice(["dumb", "dumb", "vt100", "xterm", "xterm-256color", None, "no-such-terminal", "ansi"]),
+            # the documented logging switch: whatever it prints, the process still ends with 0 or 1
+            "log": rng.choice([None] * 14 + ["debug", "trace", "rustfmt_nightly=debug", "rustfmt_nightly::missed_spans=debug", "info"])}
 
 
 LANE_C_SRC = '''/// Example:
@@ -265,6 +267,8 @@ def execute(case):
         inv = {"cwd": "w", "hashseed": case["hashseed"]}
         if "term" in case:
             inv["env"] = {"TERM": case["term"]}
+            if case.get("log"):
+                inv["env"]["RUSTFMT_LOG"] = case["log"]
         if case["delivery"] == "root":
             files["w/input.rs"] = spec
             inv["argv"] = argv + ["input.rs" if case["hashseed"] % 3 else "$ROOT/w/input.rs"]
